@@ -43,6 +43,14 @@ def run_check(prop: str, tier: str, seed: int) -> int:
             print(f"ANALYSIS-ERROR property={prop}: no rule module")
             return 2
         level = getattr(mod, "LEVEL", "other")
+        # wall-clock limit for the shared rules too (the clean tree needs seconds): never a hang
+        import signal as _signal
+
+        def _shared_too_long(_sig, _frm):
+            raise AnalysisError(f"time budget of {BUDGET_S} s exceeded while evaluating the shared rules for {prop}")
+
+        _signal.signal(_signal.SIGALRM, _shared_too_long)
+        _signal.alarm(BUDGET_S)
         program = Program()
         ctx = core.Ctx(prop, program, tier)
         from . import purity
